@@ -126,13 +126,23 @@ UnrecognisedForms(a) ==
     \cup (IF a.k = "len" /\ a.form = "conj" THEN {"conj"} ELSE {})
 
 -------------------------------------------------------------------------------
-(* Scenarios.  scn = [kind, opt, wmt, cls : Seq(Seq(Atom)), prim : Seq(Seq(Atom))]                       *)
+(* Scenarios.  scn = [kind, opt, wmt, shape, cls : Seq(Seq(Atom)), prim : Seq(Seq(Atom))]                *)
 
 Depth(scn) == Len(scn.cls)
 FlattenTo(seqs, k) == UNION {Range(seqs[j]) : j \in 1..k}
 AllPrimAtoms(scn) == FlattenTo(scn.prim, Len(scn.prim))
-ClassAtoms(scn, k) == FlattenTo(scn.cls, k)                   \* own and inherited invariants of Ck
-AllAtoms(scn) == ClassAtoms(scn, Depth(scn)) \cup AllPrimAtoms(scn)
+\* Shapes of the class hierarchy (scn.shape):
+\*   "chain"                 C1 <- C2 <- C3                      (levels 1..Depth)
+\*   "dia_ab" / "dia_ba"     C1 <- C2, C1 <- C3, C4(C2, C3) / C4(C3, C2): a diamond, the two orders of the bases
+ParentLevels(scn, k) ==
+    IF scn.shape = "chain" THEN (IF k > 1 THEN {k - 1} ELSE {})
+    ELSE CASE k = 1 -> {} [] k = 2 -> {1} [] k = 3 -> {1} [] k = 4 -> {2, 3}
+\* a class and all its ancestors, through ANY parent
+AncLevels(scn, k) ==
+    IF scn.shape = "chain" THEN 1..k
+    ELSE CASE k = 1 -> {1} [] k = 2 -> {1, 2} [] k = 3 -> {1, 3} [] k = 4 -> {1, 2, 3, 4}
+ClassAtoms(scn, k) == UNION {Range(scn.cls[j]) : j \in AncLevels(scn, k)}   \* own and inherited invariants of Ck
+AllAtoms(scn) == FlattenTo(scn.cls, Depth(scn)) \cup AllPrimAtoms(scn)
 
 \* the atoms that speak about slot s of class Ck
 SlotAtoms(scn, k, s) ==
@@ -166,7 +176,7 @@ SomeMutuallyUnsat(scn, maxLen) == \E k \in 1..Depth(scn), s \in Slots : Mutually
 SomeUnsat(scn, maxLen) == \E k \in 1..Depth(scn), s \in Slots : Unsat(scn, k, s, maxLen)
 
 \* a descendant tightens what it inherits
-Tightens(scn, k, s, maxLen) == k > 1 /\ AdmitLens(scn, k, s, maxLen) # AdmitLens(scn, k - 1, s, maxLen)
+Tightens(scn, k, s, maxLen) == \E p \in ParentLevels(scn, k) : AdmitLens(scn, k, s, maxLen) # AdmitLens(scn, p, s, maxLen)
 
 \* an inferred range as reported:  [has, hasmin, min, hasmax, max]   (has = a length constraint is present)
 RangeSet(r, maxLen) ==
